@@ -13,3 +13,30 @@ package tables
 //@   modifies unspecified
 //@   loop 1 invariant [shape] len(sg.Points) == numPoints && 1 <= numPoints && numPoints <= 65536 && 0 <= i && i <= numPoints && 0 <= cursor && cursor <= L && L == len(src)
 //@   loop 1 invariant [lengths] 0 <= coordinatesLengthX && coordinatesLengthX <= 2*i && 0 <= coordinatesLengthY && coordinatesLengthY <= 2*i
+//
+// ParseGlyf: no slice of the glyf data is taken outside it, whatever offsets 'loca' holds (the caller only
+// guarantees a non-empty offset list, see font.NewFont).
+//@ func ParseGlyf C09c
+//@   mode int
+//@   requires [non-empty-loca] len(locaOffsets) >= 1
+//@   modifies unspecified
+//@   loop 1 invariant [shape] len(out) == len(locaOffsets)-1
+//
+// Hinting device tables: the parser keeps exactly one value per size of [StartSize, EndSize] (the invariant
+// DeviceHinting.GetDelta relies on when it indexes Values with ppem-StartSize).
+//@ func parseDeviceTable C09c
+//@   mode int
+//@   assert_at call ParseUint16s#1 : [one-value-per-size] outLength == int(out.EndSize)-int(out.StartSize)+1 && outLength >= 1 && count*nbPerUint16 >= outLength && count >= 0
+//@   modifies unspecified
+//@ func DeviceHinting.GetDelta C09c
+//@   mode int
+//@   requires [one-value-per-size] len(dev.Values) == int(dev.EndSize)-int(dev.StartSize)+1
+//@   modifies nothing
+//
+// AnchorMatrix.Anchor: total for any non-negative record index and class (the callers pass a coverage index and the
+// class of a mark record, neither validated against the matrix), given offsets sanitized by sanitizeOffsets.
+//@ func AnchorMatrix.Anchor C09c
+//@   mode int
+//@   requires [non-negative] index >= 0 && class >= 0
+//@   requires [sanitized-offsets] forall(i, 0, len(am.records), forall(j, 0, len(am.records[i].offsets), int(am.records[i].offsets[j]) <= len(am.data)))
+//@   modifies unspecified
